@@ -678,12 +678,24 @@ def flow_env(fi: FuncInfo, stop: Optional[ast.AST] = None, max_size: int = 400) 
                 else:
                     env.pop(tgts[0].id, None)
                 continue
-            if len(tgts) == 1 and isinstance(tgts[0], ast.Tuple) and isinstance(st.value, ast.Tuple) and len(tgts[0].elts) == len(st.value.elts):
-                vals = [subst_names(v, env) for v in st.value.elts]
-                for t, v in zip(tgts[0].elts, vals):
+            if len(tgts) == 1 and isinstance(tgts[0], ast.Tuple):
+                bound: Dict[str, ast.AST] = {}
+
+                def bind(t: ast.AST, v: ast.AST) -> bool:
                     if isinstance(t, ast.Name):
-                        env[t.id] = v
-                continue
+                        bound[t.id] = subst_names(v, env)
+                        return True
+                    if isinstance(t, ast.Tuple) and isinstance(v, ast.Tuple) and len(t.elts) == len(v.elts):
+                        return all(bind(a, b) for a, b in zip(t.elts, v.elts))
+                    # (x,) * k unpacked into k names
+                    if isinstance(t, ast.Tuple) and isinstance(v, ast.BinOp) and isinstance(v.op, ast.Mult) and isinstance(v.left, ast.Tuple) and len(v.left.elts) == 1 \
+                            and isinstance(v.right, ast.Constant) and v.right.value == len(t.elts):
+                        return all(bind(a, v.left.elts[0]) for a in t.elts)
+                    return False
+
+                if bind(tgts[0], st.value):
+                    env.update(bound)
+                    continue
         # anything else: forget the names it may rebind
         for sub in ast.walk(st):
             if isinstance(sub, ast.Name) and isinstance(sub.ctx, ast.Store):
